@@ -74,6 +74,23 @@ class Prop(BaseProp):
                 ops.append("qd %s" % ",".join(x[0].hex() for x in c["chunks"][s0:]))
             ops.append("qd %s" % sg.mk_hash(rng).hex())
             mcases.append({"id": "mix%d" % i, "text": " | ".join(ops), "meta": {"nc": len(allcas), "exports": ngroups, "mix": True}})
+        # a chunk stored only in a keyed shard while the unkeyed shard of the directory holds another chunk with the same
+        # 64-bit prefix: the unkeyed collection is asked first, its candidate does not pan out, the search must go on
+        for i in range(3 if not big else 8):
+            files, cas = sg.gen_shard(rng, 1, 2, "random", max_chunks=5)
+            cas = [c for c in cas if c["chunks"]] or [sg.gen_cas(rng, sg.mk_hash(rng), 3)]
+            target = rng.choice(cas)
+            j = rng.randrange(len(target["chunks"]))
+            th = target["chunks"][j][0]
+            decoy = sg.gen_cas(rng, sg.mk_hash(rng), rng.randrange(1, 4))
+            dj = rng.randrange(len(decoy["chunks"]))
+            dch = decoy["chunks"][dj]
+            decoy["chunks"][dj] = (th[:8] + bytes(rng.getrandbits(8) for _ in range(24)),) + tuple(dch[1:])
+            ops = [sg.fmt_cas(decoy), "key %s 7" % (b"\0" * 32).hex(), "=="]
+            ops += [sg.fmt_cas(c) for c in cas] + [sg.fmt_file(f) for f in files] + ["key %s %d" % (sg.mk_hash(rng).hex(), rng.choice([7, 6, 4, 0])), "=="]
+            ops.append("qdk %s" % ",".join(x[0].hex() for x in target["chunks"][j:]))
+            ops.append("qdk %s" % th.hex())
+            mcases.append({"id": "pfx%d" % i, "text": " | ".join(ops), "meta": {"nc": len(cas) + 1, "exports": 2, "mix": True}})
         return [{"name": "c18", "cases": cases, "timeout": 900, "model_may_be_silent": True},
                 {"name": "c18m", "cases": mcases, "model": False, "timeout": 600}]
 
@@ -98,6 +115,8 @@ class Prop(BaseProp):
         for o in io:
             if o.startswith("expire"):
                 counters["expiry_" + o.replace(" ", "_")] = counters.get("expiry_" + o.replace(" ", "_"), 0) + 1
+            elif o.startswith("qdk"):
+                counters["prefix_collision_queries"] = counters.get("prefix_collision_queries", 0) + 1
             elif o.startswith("qd"):
                 k = "mixture_queries_" + ("hit" if not o.endswith("keyed=0") else "miss")
                 counters[k] = counters.get(k, 0) + 1
